@@ -350,7 +350,7 @@ func vfC05qCount(q Q) int {
 }
 
 func TestVerifC05Q(t *testing.T) {
-	r := vfNewRand(vfSeed() + 7777)
+	r := vfNewRand(vfNewRand(vfSeed() + 7777).U64()) // hashed: consecutive seeds of the shared PRNG are one draw apart
 	n := vfN(100)
 	type rewrite struct {
 		name string
